@@ -41,6 +41,9 @@ impl AuthenticationAdapter for MojangAdapter {
         let url = format!(
             "https://sessionserver.mojang.com/session/minecraft/hasJoined?username={username}&serverId={hash}"
         );
+        // verification hook: lets a local mock session server capture the real request
+        #[cfg(feature = "verif-hooks")]
+        let url = crate::verif_session_url(url);
         let profile = HTTP_CLIENT
             .get(&url)
             .send()
